@@ -267,6 +267,7 @@ impl Check for C17 {
         let model = gen_model(&mut r.split("model"), &gp);
         let mut cfg = super::c14::gen_cfg(&mut r.split("cfg"), &setup);
         cfg.visualize = i % 5 == 0;
+        cfg.flag_visualize = cfg.flag_visualize && cfg.visualize;
         let mut er = r.split("edit");
         let (model_b, edit_desc) = if prestate != "first" {
             // an edit the cache demonstrably notices (checked by the golden run)
